@@ -10,6 +10,7 @@ import (
 	"os/exec"
 	"runtime/debug"
 	"sort"
+	"strconv"
 	"strings"
 	"sync"
 	"time"
@@ -79,6 +80,14 @@ func hxList(bs [][]byte, sep string) string {
 		parts[i] = hx(b)
 	}
 	return strings.Join(parts, sep)
+}
+
+func atoiU(s string, bits int) uint64 {
+	v, err := strconv.ParseUint(s, 10, bits)
+	if err != nil {
+		panic("harness: bad integer token " + s)
+	}
+	return v
 }
 
 // ---- running the implementation ---------------------------------------------------------
